@@ -817,6 +817,11 @@ func (e *asEngine) digest() string {
 					continue
 				}
 				who := fmt.Sprintf("(%s, %q)", c.path, r)
+				if st := c.ctx.VerifState(); st.State == 2 && !st.Zombie && e.viol == "" {
+					if cur := e.sys.VerifLookup(c.path); cur == nil || cur != c.ctx {
+						e.viol = fmt.Sprintf("JOB-SURVIVES-OWNER: job %s is still in the shared queue although its owner %s has terminated (registered while it was stopping, or never cleared)", k, c.path)
+					}
+				}
 				if prev, ok := ownerOf[k]; ok && prev != who && e.viol == "" {
 					e.viol = fmt.Sprintf("JOB-KEY-COLLISION: %s and %s map to the same job key %q: the second job is silently not scheduled and clearing one cancels the other", prev, who, k)
 				}
@@ -1613,5 +1618,66 @@ func (e *asEngine) schedulerScenarios(c *Ctx) {
 		c.Do("check")
 		c.R.Nontrivial()
 		c.R.Hit("sched-scenario")
+	}
+	// jobs of actors that have children, and jobs registered while the owner is already stopping (in its
+	// OnKill handler, on the death notice of a child, in its own final OnKilled): killed / poisoned /
+	// stopped by the supervisor / restarted — nothing may survive the owner (C20, C06)
+	reps := 1
+	if c.Thorough() {
+		reps = 8
+	}
+	for rep := 0; rep < reps; rep++ {
+		for _, when := range []string{"running", "kill", "okilled", "killed"} {
+			for _, how := range []string{"kill", "poison", "fail-stop", "fail-restart"} {
+				for _, kids := range []int{0, 1, 2} {
+					if when == "okilled" && kids == 0 {
+						continue
+					}
+					c.Case("reset 1")
+					var rules []string
+					if kids > 0 {
+						launch := "spawn.k0.3.0.-.0"
+						if kids > 1 {
+							launch += ",spawn.k1.3.0.-.0"
+						}
+						rules = append(rules, "launch:"+launch)
+					}
+					arm := "once.a.1,loop.b.1"
+					switch when {
+					case "running":
+						rules = append(rules, "u1:"+arm)
+					default:
+						rules = append(rules, when+":"+arm, "u1:loop.c.1")
+					}
+					rules = append(rules, "u2:panic")
+					c.Do("script 1 " + strings.Join(rules, ";"))
+					c.Do("script 3 u1:once.z.1")
+					dec := "3"
+					if how == "fail-restart" {
+						dec = "1"
+					}
+					c.Do("script 2 launch:spawn.o.1.0.-.0")
+					c.Do("spawn p 2 1 " + dec + " 0")
+					e.drain(c, 60)
+					c.Do("tell p:/p/o 1")
+					if kids > 0 {
+						c.Do("tell p:/p/o/k0 1")
+					}
+					e.drain(c, 60)
+					switch how {
+					case "kill":
+						c.Do("kill p:/p/o 0")
+					case "poison":
+						c.Do("kill p:/p/o 1")
+					default:
+						c.Do("tell p:/p/o 2")
+					}
+					e.drain(c, 300)
+					c.Do("check")
+					c.R.Nontrivial()
+					c.R.Hit("sched-owner:" + when + ":" + how)
+				}
+			}
+		}
 	}
 }
